@@ -198,7 +198,7 @@ proof fn lemma_le_push(s: Seq<BedEntry>, x: BedEntry, b: u32)
 
 //@extract fn bigtools/src/bbi/bigbedwrite.rs process_val
 //@rule R16
-//@presub /let add_interval_to_summary =\s*move \|.*?\n        \};\n/ => "" min=1 count=1
+//@presub /let add_interval_to_summary =\s*move \|.*?\n[ \t]*\};[ \t]*\n(?=\s*add_interval_to_summary\()/ => "" min=1 count=1
 //@rule R2 min=1
 //@rule R1 min=1
 //@sub /format!\(.*?\)(?=\)\);)/ => err_msg() min=3
